@@ -447,7 +447,85 @@ pub fn builder_histories(cfg: &Cfg, c11: bool) -> Report {
         )*};
     }
     forn!(0 1 2 3 4);
+    rep.merge(builder_zst(cfg, c11));
     rep
+}
+
+/// Zero-sized element types: nothing is ever stored, so "is the array fully written?" is decided by the
+/// push counter alone. Every number of pushes k in 0..=N+1 for `()`, a field-less struct and a ZST with
+/// drop glue: len/is_full/as_slice follow k, the (N+1)-th push panics, build succeeds iff k == N, and for
+/// the Drop ZST exactly one drop happens per value created (conservation).
+fn builder_zst(cfg: &Cfg, c11: bool) -> Report {
+    use crate::ledger::{Zdrop, ZDROPS};
+    #[derive(Debug, Clone, Copy, PartialEq)]
+    struct Unit;
+    let mut r = Report::new();
+    if !cfg.mine(0) {
+        return r;
+    }
+    let sig = |a: &'static str, b: &'static str| if c11 { b } else { a };
+    macro_rules! one {
+        ($t:ty, $mk:expr, $n:literal, $tn:literal) => {
+            for k in 0..=($n + 1usize) {
+                let what = || format!("ArrayBuilder<{},{}>: {} pushes", $tn, $n, k);
+                ZDROPS.with(|z| z.set(0));
+                let mut b: ArrayBuilder<$t, $n> = ArrayBuilder::new();
+                let mut pushed = 0usize;
+                let mut created = 0u64;
+                for i in 0..k {
+                    let must_panic = i >= $n;
+                    created += 1;
+                    let g = catch(|| b.push($mk));
+                    r.ev(if must_panic { "zst-builder.push:full" } else { "zst-builder.push" });
+                    if g.is_err() != must_panic {
+                        r.fail(sig("C15:builder-push", "C11:builder-push"), "ArrayBuilder", what(), format!("push #{} panicked={}", i + 1, g.is_err()), format!("panicked={}", must_panic));
+                    }
+                    if g.is_ok() {
+                        pushed += 1;
+                    }
+                }
+                r.ev("zst-builder.len/is_full");
+                if b.len() != pushed || b.is_full() != (pushed == $n) || b.as_slice().len() != pushed {
+                    r.fail(sig("C15:builder-len", "C11:builder-len"), "ArrayBuilder", what(), format!("len={} is_full={} as_slice().len()={}", b.len(), b.is_full(), b.as_slice().len()), format!("len={} is_full={}", pushed, pushed == $n));
+                }
+                let g = catch(move || b.build());
+                r.ev(if pushed == $n { "zst-builder.build:full" } else { "zst-builder.build:partial" });
+                match g {
+                    Ok(arr) => {
+                        if pushed != $n {
+                            r.fail(sig("C15:builder-build-returned-partial-array", "C11:builder-build-returned-partial-array"), "ArrayBuilder", what(), format!("returned an array of {} elements after {} pushes", arr.len(), pushed), "panic (not fully initialised)".into());
+                        }
+                        drop(arr);
+                    }
+                    Err(()) => {
+                        if pushed == $n {
+                            r.fail(sig("C15:builder-build-panicked", "C11:builder-build-panicked"), "ArrayBuilder", what(), "<panic>".into(), "the array".into());
+                        }
+                    }
+                }
+                if $tn == "Zdrop" {
+                    let d = ZDROPS.with(|z| z.get());
+                    r.ev("zst-builder.drop-conservation");
+                    if d != created {
+                        r.fail(sig("C15:zst-element-not-dropped-exactly-once", "C11:zst-element-not-dropped-exactly-once"), "ArrayBuilder", what(), format!("{} drops", d), format!("{} drops (one per created value)", created));
+                    }
+                }
+                if k != $n {
+                    r.nt(&("zst-builder", $tn, $n, k));
+                }
+            }
+        };
+    }
+    macro_rules! forn {
+        ($($n:literal)*) => {$(
+            one!((), (), $n, "()");
+            one!(Unit, Unit, $n, "Unit");
+            one!(Zdrop, Zdrop, $n, "Zdrop");
+            one!([u64; 0], [], $n, "[u64;0]");
+        )*};
+    }
+    forn!(0 1 2 3 5);
+    r
 }
 
 // ------------------------------------------------------------------ map_! / from_fn_! with the ledger
